@@ -13,6 +13,7 @@ import types
 
 from code_data import (AdditionalLine, Args, Cellvar, CodeData, Constant, Freevar, Function, Instruction, Jump, Name, NoArg, Varname)
 
+from .props import decode_failure  # noqa: E402
 from . import gen, lt_models, oracle
 from .props2 import PY38, PY310, code_replace, fail, part, replayer, result
 
@@ -517,7 +518,8 @@ def c16_cli(tier, seed):
                                 ([path, "-m", "json"], False), (["-c", "x=1"], True), (["-e", "'x=1'"], True), ([path], True), (["-m", "json.tool"], True),
                                 (["-c", ""], True), (["-e", "''"], True), (["-c", "", "-e", "''"], False), (["-c", "", path], False),
                                 (["-c", "json", "-m", "json"], False), (["-c", "x=1", "-e", "x=1"], False),
-                                ([path, path], False), ([path, "--json", path], False), ([path, path, "-c", "x=1"], False)]:
+                                ([path, path], False), ([path, "--json", path], False), ([path, path, "-c", "x=1"], False),
+                                (["-cx=1"], True), (["-mcolorsys"], True), (["-e'x=1'"], True), (["-cx=1", "--json"], True), (["-cx=1", "-mcolorsys"], False)]:
             evals += 1
             rc, out, err = _cli(args)
             if expect_ok and rc != 0:
@@ -552,6 +554,29 @@ def c16_cli(tier, seed):
                         msgs = ["case raised %s: %s" % (type(e).__name__, e)]
                     if msgs:
                         fails.append(fail("cli_contract", "%s:%r:%s" % (kind, prog, " ".join(flags)), msgs, {"kind": kind, "prog": prog, "flags": flags, "raw": True}))
+        # a file named by a relative path, through a symlink, and with `..`: the printed data carries the path as it was given (as the API would for compile(src, path))
+        os.makedirs(os.path.join(tmpdir, "pkg"), exist_ok=True)
+        rel_src = "def f(a):\n    return lambda: a\n"
+        with open(os.path.join(tmpdir, "pkg", "prog.py"), "w") as f:
+            f.write(rel_src)
+        try:
+            os.symlink(os.path.join(tmpdir, "pkg", "prog.py"), os.path.join(tmpdir, "link.py"))
+            rels = ["pkg/prog.py", "link.py", "pkg/../pkg/prog.py"]
+        except OSError:
+            rels = ["pkg/prog.py", "pkg/../pkg/prog.py"]
+        for rel in rels:
+            for flags in ([], ["--json"], ["--no-normalize"]):
+                evals += 1
+                rc, out, err = _cli([rel] + flags, cwd=tmpdir)
+                cd, want = _api_text(rel_src, rel, "--no-normalize" not in flags, "--json" in flags)
+                msgs = []
+                if rc != 0:
+                    msgs.append("exit status %d for the file %r: %s" % (rc, rel, err.strip()[-160:]))
+                elif out != want:
+                    i = next((k for k, (x, y) in enumerate(zip(out, want)) if x != y), min(len(out), len(want)))
+                    msgs.append("for the file given as %r stdout differs from the API's result for compile(source, %r): first difference at char %d: %r vs %r" % (rel, rel, i, out[i:i + 60], want[i:i + 60]))
+                if msgs:
+                    fails.append(fail("cli_contract", "file:%s %s" % (rel, " ".join(flags)), msgs, {"relpath": rel, "flags": flags}))
         # -m module, and --dis vs --dis-after show the same instructions
         for mod in ["json.tool", "colorsys"] + (["textwrap", "bisect"] if tier == "thorough" else []):
             evals += 1
@@ -585,6 +610,22 @@ def c16_replay(rec):
         if not r["expect_ok"] and rc != 2:
             return ["exit status %d, usage error expected" % rc]
         return []
+    if "relpath" in r:
+        d = tempfile.mkdtemp(prefix="pcv-c16r-")
+        try:
+            os.makedirs(os.path.join(d, "pkg"))
+            src = "def f(a):\n    return lambda: a\n"
+            open(os.path.join(d, "pkg", "prog.py"), "w").write(src)
+            try:
+                os.symlink(os.path.join(d, "pkg", "prog.py"), os.path.join(d, "link.py"))
+            except OSError:
+                pass
+            rc, out, err = _cli([r["relpath"]] + r["flags"], cwd=d)
+            cd, want = _api_text(src, r["relpath"], "--no-normalize" not in r["flags"], "--json" in r["flags"])
+            return [] if (rc == 0 and out == want) else ["exit %d; stdout differs from the API's result for the path as given" % rc]
+        finally:
+            import shutil
+            shutil.rmtree(d, ignore_errors=True)
     if "mod" in r:
         return _c16_module(r["mod"], r.get("flags", [])) if r.get("api") else _c16_module_dis(r["mod"])
     d = tempfile.mkdtemp(prefix="pcv-c16r-")
@@ -600,7 +641,7 @@ def c08_corpus(code, dec):
     from .props2 import CORPUS_CHECKS  # noqa
     cd, err = dec.get(code)
     if err is not None:
-        return []
+        return decode_failure(code, err)
     msgs = []
     try:
         h1 = hash(cd)
@@ -641,7 +682,7 @@ def c10_real_tables(code, dec):
     """every line table found in real compiled code: decoded per-instruction lines equal CPython's, re-encoding reproduces the table"""
     cd, err = dec.get(code)
     if err is not None:
-        return []
+        return decode_failure(code, err)
     msgs = []
     lines = oracle.cpython_line_of_offsets(code)
     ref = oracle.cpython_instructions(code)
